@@ -1,14 +1,18 @@
 #!/usr/bin/env python3
-"""tools/show_obligations.py <Cxx> [substring]  - dev helper: print the obligations of one property run on /repo."""
+"""tools/show_obligations.py <Cxx> [substring] [--repo DIR]  - dev helper: print the obligations of one property run."""
 import importlib, sys
 sys.path.insert(0, "/verif")
 from cubeverif.core import Ctx
-prop = sys.argv[1]
-sub = sys.argv[2] if len(sys.argv) > 2 else ""
+args = sys.argv[1:]
+repo = "/repo"
+if "--repo" in args:
+    i = args.index("--repo"); repo = args[i + 1]; del args[i:i + 2]
+prop = args[0]
+sub = args[1] if len(args) > 1 else ""
 mod = importlib.import_module(f"cubeverif.rules.{prop.lower()}")
-ctx = Ctx(prop, "quick", "/repo")
+ctx = Ctx(prop, "quick", repo)
 mod.run(ctx)
 for o in ctx.obligations:
-    t = f"{o.status:9} {o.rule} :: {o.construct} :: {str(getattr(o,'derived',''))[:160]}"
+    t = f"{o.status:9} {o.rule} :: {o.construct} :: {str(getattr(o,'derived',''))[:300]} || expected {str(getattr(o,'expected',''))[:200]}"
     if sub in t:
         print(t)
